@@ -14,9 +14,9 @@ Definition after (products : string) (unit extra : string) (n : nat) : string :=
 (* reduction_oxidation_rules_modify on one entry: (reactants, products) -> (reactants, products) *)
 Definition modify_h (r p : string) : string * string :=
   if contains ".[H]" p then
-    let rs := map strip_colon_digits (split "." r) in
+    let rs := map strip_colon_digits (comps r) in
     if existsb (fun x => mem_str x no_constraint) rs then (r, p)
-    else if Nat.even (count_eq "[H]" (split "." p)) then
+    else if Nat.even (count_eq "[H]" (comps p)) then
       let hc := Nat.div2 (count ".[H]" p) in
       let p1 := replace ".[H]" "" p in
       (r ++ repeat_str ".[O]" hc, after p1 "O" ".O" hc)
@@ -24,7 +24,7 @@ Definition modify_h (r p : string) : string * string :=
   else (r, p).
 Definition modify_o (r p : string) : string * string :=
   if contains ".[O]" p then
-    if Nat.even (count_eq "[O]" (split "." p)) then (r, p)
+    if Nat.even (count_eq "[O]" (comps p)) then (r, p)
     else
       let oc := count ".[O]" p in
       let p1 := replace ".[O]" "" p in
